@@ -580,6 +580,10 @@ func (s *hybridSearch) Execute() ([]HybridSearchResult, error) {
 		}
 	}
 
+	verifCapture("hybrid:candidates", s, candidateIDs)
+	verifCapture("hybrid:vector", s, vectorResults)
+	verifCapture("hybrid:text", s, textResults)
+
 	// Step 4: Combine results using fusion strategy
 	var combinedScores map[uint32]float64
 
